@@ -139,7 +139,8 @@ class ProxyProtocolV1(object):
         try:
             packed = socket.inet_pton(addr_family, ip_string.decode('ascii'))
             return socket.inet_ntop(addr_family, packed)
-        except (UnicodeDecodeError, socket.error):
+        except (ValueError, socket.error):
+            # ValueError: not ASCII, or an embedded null character.
             msg = 'Invalid proxy protocol {0} IP format'.format(which)
             raise AssertionError(msg)
 
